@@ -96,6 +96,16 @@ func (p Path) hasZeroStep() bool {
 	return false
 }
 
+// descentAfterFrag: a descent follows a fragment other than a descent.
+func (p Path) descentAfterFrag() bool {
+	for i := 1; i < len(p); i++ {
+		if p[i].Kind == 'd' && p[i-1].Kind != 'd' {
+			return true
+		}
+	}
+	return false
+}
+
 func (p Path) endsInDescent() bool { return len(p) > 0 && p[len(p)-1].Kind == 'd' }
 
 func optInt(s []int, i int) string {
